@@ -115,14 +115,15 @@ class Cell:
 
         """
         n = len(self._agents)
-        self.empty = False
 
-        if self.capacity and n >= self.capacity:
+        # a capacity of 0 (e.g. the area-based default of a tiny Voronoi cell) is a capacity, not "unlimited"
+        if self.capacity is not None and n >= self.capacity:
             raise Exception(
                 "ERROR: Cell is full"
             )  # FIXME we need MESA errors or a proper error
 
         self._agents.append(agent)
+        self.empty = False
 
     def remove_agent(self, agent: CellAgent) -> None:
         """Removes an agent from the cell.
